@@ -1,7 +1,7 @@
 (* C08 - Conformant SD-JWTs from other issuers are processed as the specification says. *)
 From Coq Require Import List String Ascii Bool Arith.
 Import ListNotations.
-Require Import SDJ.Json SDJ.Wire SDJ.Model2 SDJ.Out SDJ.Restore2 SDJ.ATree SDJ.T2c SDJ.T2h SDJ.T2m SDJ.T2o SDJ.Verify.
+Require Import SDJ.Json SDJ.Wire SDJ.Model2 SDJ.Out SDJ.Restore2 SDJ.ATree SDJ.T2c SDJ.T2h SDJ.T2e SDJ.T2m SDJ.T2o SDJ.Split SDJ.Verify SDJ.C03Proofs.
 Local Open Scope string_scope.
 
 (* For EVERY conformant token - described by any well-formed annotated tree t: any shape, recursive
@@ -29,5 +29,39 @@ Theorem C08_algorithm_from_sd_alg :
     jget "_sd_alg" claims = JStr a -> parse_halg a = Some alg ->
     restore_and_strip O claims ds =
     obind (of_res (restore_disclosures (o_hash O alg) (o_dec O) show_nat claims ds)) (fun cp => Val (remove_digests (fst cp), snd cp)).
-Proof. intros O claims ds a alg Ha Hp. unfold restore_and_strip. rewrite Ha. cbn [jstr_or_empty]. rewrite Hp. reflexivity. Qed.
+Proof. exact restore_and_strip_alg. Qed.
 Print Assumptions C08_algorithm_from_sd_alg.
+
+(* At the entry points, for a token of ANY conformant issuer (tree t, digest algorithm among the three the
+   library supports, any formatting of the disclosure strings that decodes): the verifier accepts every
+   duplicate-free list of decodable disclosures in any order and returns the projection; the holder does the
+   same and reports every placed disclosure with the path of its node. *)
+Theorem C08_verifier_accepts :
+  forall (O : oracles) (H : string -> string) (enc : list json -> string),
+    (forall x y, H x = H y -> x = y) ->
+    (forall ps, o_dec O (enc ps) = DJson (JArr ps)) ->
+    forall t : atree, wf H enc t -> NoDup (alldigs H enc t) -> NoDup (hdigs H enc t) -> aheight t <= 129 ->
+    forall token kbpol jwt L ds hdr0 a alg,
+      sd_jwt_parts token = (jwt, L, None) -> o_jwt O jwt = Val (hdr0, blind H enc t) ->
+      jget "_sd_alg" (blind H enc t) = JStr a -> parse_halg a = Some alg -> o_hash O alg = H ->
+      jget "cnf" (blind H enc t) = JNull ->
+      NoDup L -> (forall s, In s L -> In (H s) (alldigs H enc t) -> In (H s) (hdigs H enc t)) ->
+      decode_all H (o_dec O) L = Ok ds ->
+      verifier_verify O token kbpol = Val (hdr0, drop_alg (proj H enc (ownS H L) t)).
+Proof. exact verifier_verify_complete. Qed.
+Print Assumptions C08_verifier_accepts.
+
+Theorem C08_holder_accepts :
+  forall (O : oracles) (H : string -> string) (enc : list json -> string),
+    (forall x y, H x = H y -> x = y) ->
+    (forall ps, o_dec O (enc ps) = DJson (JArr ps)) ->
+    forall t : atree, wf H enc t -> NoDup (alldigs H enc t) -> NoDup (hdigs H enc t) -> aheight t <= 129 ->
+    forall token jwt L ds hdr0 a alg,
+      sd_jwt_parts token = (jwt, L, None) -> o_jwt O jwt = Val (hdr0, blind H enc t) ->
+      jget "_sd_alg" (blind H enc t) = JStr a -> parse_halg a = Some alg -> o_hash O alg = H ->
+      NoDup L -> (forall s, In s L -> In (H s) (alldigs H enc t) -> In (H s) (hdigs H enc t)) ->
+      decode_all H (o_dec O) L = Ok ds ->
+      exists ps, holder_verify O token = Val (hdr0, drop_alg (proj H enc (ownS H L) t), ps) /\
+        Forall (fun pd : dpath => In (snd pd) ds /\ NodePath H enc show_nat (d_digest (snd pd)) t (fst pd)) ps.
+Proof. exact holder_verify_complete. Qed.
+Print Assumptions C08_holder_accepts.
